@@ -16,7 +16,9 @@
 From Coq Require Import ZArith List Bool Lia.
 From ClapModel Require Import Base.Bytes Base.Machine Base.Utf8.
 From ClapModel Require Value.ValueBase Value.IntParse Value.IntParseProofs Value.IntFactory Value.IntFactoryProofs
-                       Value.BoolParse Value.BoolParseProofs Value.ValueParsers Value.ValueParsersProofs.
+                       Value.BoolParse Value.BoolParseProofs Value.PossibleValues Value.PossibleValuesProofs
+                       Value.ValueParsers Value.ValueParsersProofs.
+From ClapModel Require Gen.BoolTables.
 From ClapModel Require Import Parse.Cmd Parse.Build Parse.Valid Parse.Matcher Parse.Errors Parse.Validator Parse.Parser.
 From ClapModel Require Import ParseProofs.Relations ParseProofs.Dispatch ParseProofs.Chain ParseProofs.TypedInv.
 Import ListNotations.
@@ -29,6 +31,9 @@ Module IF_ := ClapModel.Value.IntFactory.
 Module BP := ClapModel.Value.BoolParse.
 Module BPP := ClapModel.Value.BoolParseProofs.
 Module VP := ClapModel.Value.ValueParsers.
+Module IFP := ClapModel.Value.IntFactoryProofs.
+Module PV := ClapModel.Value.PossibleValues.
+Module PVP := ClapModel.Value.PossibleValuesProofs.
 
 (** * [str::parse::<i64>] of the parser model = the digit-by-digit model of C04 *)
 Lemma sign_split_spec (s : bytes) :
@@ -121,10 +126,30 @@ Definition embed (vp : Cmd.vparser) : option VP.vparser :=
       | None => None
       end
   | Cmd.VPI64 lo hi => Some (VP.VPRanged VB.PI64 (VB.Included lo, VB.Included hi) VB.I64)
+  (* round 4: the parsers the parser model delegates to Value/*.v *)
+  | Cmd.VPBoolish => Some VP.VPBoolish
+  | Cmd.VPFalsey => Some VP.VPFalsey
+  | Cmd.VPNonEmpty => Some VP.VPNonEmpty
+  | Cmd.VPPossible ic pvs => Some (VP.VPPossible clap_unicode ic (map fst pvs))
+  | Cmd.VPRanged t lo hi => Some (VP.VPRanged (ity_pkind t) (VB.Included lo, VB.Included hi) t)
   end.
 
 Definition ek (k : VB.err_kind) : ekind :=
   match k with VB.InvalidUtf8 => EInvalidUtf8 | VB.ValueValidation => EValueValidation | VB.InvalidValue => EInvalidValue end.
+
+Lemma ek_of_ek k : ek_of k = ek k.
+Proof. destruct k; reflexivity. Qed.
+
+(** [value_parser!(T)] picks the carrier the regenerated factory table says *)
+Lemma ity_pkind_factory dbg t : exists r, IF_.factory_parser dbg t = Some (ity_pkind t, r).
+Proof. destruct (IFP.factory_total dbg t) as [r H]. exists r. rewrite H. destruct t; reflexivity. Qed.
+
+Lemma vres_kind_bridge {A B} (f : A -> B) (r : VB.vresult A) :
+  match VP.vmap f r with
+  | VB.VOk _ => vres_kind r = None
+  | VB.VErr k => vres_kind r = Some (ek k)
+  end.
+Proof. destruct r as [a|k]; cbn [VP.vmap vres_kind]; [reflexivity|rewrite ek_of_ek; reflexivity]. Qed.
 
 Lemma ranged_i64_incl_agree lo hi tmin tmax s :
   forall (Hw : forall z, (i64_min <= z <= i64_max)%Z -> (lo <= z <= hi)%Z -> (tmin <= z <= tmax)%Z),
@@ -163,7 +188,8 @@ Theorem bridge vp p s : embed vp = Some p ->
   | VB.VErr k => vp_parse vp s = Some (ek k)
   end.
 Proof.
-  destruct vp as [| | | |lo hi]; cbn [embed]; try discriminate.
+  destruct vp as [| | | |lo hi| | | |ic pvs|t lo hi]; cbn [embed]; try discriminate.
+  5-9: (intros H; inversion H; subst p; cbn [VP.vparse vp_parse]; apply vres_kind_bridge).
   - intros H; inversion H; subst p. cbn [VP.vparse vp_parse]. unfold BP.string_parse.
     destruct (utf8_valid s); reflexivity.
   - intros H; inversion H; subst p. cbn [VP.vparse vp_parse]. unfold BP.bool_parse.
